@@ -225,12 +225,13 @@ Lemma fs_addr_iff S p loc s a : fs_addr S p loc = FOk (s, a) <->
   (if loc then localize (c_loc (conf S)) (lng S) p = LOk s else s = p) /\ parse_path s = Some a.
 Proof.
   destruct loc.
-  - unfold fs_addr, fs_actual. destruct (localize (c_loc (conf S)) (lng S) p) as [s'|e|]; cbn [fbind].
+  - unfold fs_addr, fs_actual. destruct (localize (c_loc (conf S)) (lng S) p) as [s'|e| |]; cbn [fbind].
     + destruct (parse_path s') as [a'|] eqn:P; split.
       * intros H. injection H as <- <-. auto.
       * intros (E & H). injection E as <-. rewrite P in H. injection H as <-. reflexivity.
       * discriminate.
       * intros (E & H). injection E as <-. congruence.
+    + split; [discriminate | intros (E & _); discriminate].
     + split; [discriminate | intros (E & _); discriminate].
     + split; [discriminate | intros (E & _); discriminate].
   - rewrite fs_addr_unloc. split; intros (-> & H); auto.
